@@ -55,7 +55,7 @@ CLAIMED = {
                 "extended solvers, with a cost menu that includes sloss=0, all-zero and incoherent vectors; the structural predicate is evaluated "
                 "on the trees each solution refers to; on refinements the cost must also be finite under the REQUESTED unit costs (hgt = inf included); "
                 "a polytomy session slice solves one multifurcating input object again after in-place updates of its leaf data and costs; "
-                "a retopology session gives one root node object every binary shape of 2..4 leaves in turn.",
+                "a retopology session gives one root node object every binary shape of 2..4 leaves in turn; three object leaves on the 10-leaf species caterpillar with transfers forbidden and full losses at 3 (general solver).",
         "design_ref": "6 (C04)",
         "note": "Trusted: the validity predicates in refmodel/{dtl,ordered,unordered}.py. No optimality is checked here (C01-C03, C05, C08).",
         "technique": TECH_E2,
@@ -64,7 +64,7 @@ CLAIMED = {
         "category": "exploration",
         "text": "Bounded-exhaustive comparison of the ALL result with the complete optimal set of the reference models, key for key, "
                 "and of ANY with membership in it, for thl/exh (quick P4x3, thorough P4x4 + 5x<=3) and the four labelled solvers "
-                "(quick O3x2x3, U3x3x3, U4x2x2, 5-leaf chains x 1 species x 3 families; thorough O3x3x3, O4x3x2, U4x3x2, U4x2x4, U5x2x2) on a tie-rich coherent cost menu (free segmental losses included); quick also every tuple of subsequences of abcd (four families) on 3 object leaves and 5-leaf chains over {a, c, d, bd, abcd}.",
+                "(quick O3x2x3, U3x3x3, U4x2x2, 5-leaf chains x 1 species x 3 families; thorough O3x3x3, O4x3x2, U4x3x2, U4x2x4, U5x2x2) on a tie-rich coherent cost menu (free segmental losses included); quick also every tuple of subsequences of abcd (four families) on 3 object leaves and 5-leaf chains over {a, c, d, bd, abcd}; the 5-leaf comb on a species cherry over {ac, b, ab} (several root orders with different optima while transfers pay off).",
         "design_ref": "6 (C05)",
         "note": "Trusted: the reference models' optimal sets (brute force / Bellman, cross-validated). Coherent region only; "
                 "F-COHERENCE set witnesses replayed from known_findings.json.",
@@ -88,7 +88,7 @@ CLAIMED = {
                 "reconcile_lca's mapping = model LCA mapping, valid, and cheapest among ALL transfer-free valid mappings (enumerated by the model) "
                 "for all 36 (dup, loss) in {0..5}^2, unique when loss > 0; implementation cost = model cost. Operation histories: one species "
                 "tree and one LowestCommonAncestor object (named / unnamed ancestors) shared by every object tree of the bound, the leaf-mapping "
-                "dict updated in place through every assignment, every ordered pair of assignments on small inputs; the caller's own cost dict edited after the input was built (a cost sweep); reconcile_thl at hgt = inf under ANY and ALL with losses at 1, 3 and 4 must return exactly the LCA reconciliation (<=4x<=4 leaves).",
+                "dict updated in place through every assignment, every ordered pair of assignments on small inputs; the caller's own cost dict edited after the input was built (a cost sweep); reconcile_thl at hgt = inf under ANY and ALL with losses at 1, 3 and 4 must return exactly the LCA reconciliation (<=4x<=4 leaves; with free full losses: the LCA cost); the exhaustive solver at hgt = inf returns only the LCA reconciliation (<=3x<=3); the LCA result handed on by name after label_internal on partially labelled trees.",
         "design_ref": "6 (C07)",
         "note": "Trusted: refmodel/dtl.py. The comparison with thl at hgt=inf is C10's.",
         "technique": TECH_E2,
@@ -188,9 +188,9 @@ CLAIMED = {
     "C15": {
         "category": "exploration",
         "text": "Same reconciliations x every colouring of a menu (none, root, inner, every nested pair, explicit black inside / around a colour, leaf, two subtrees, three levels) with "
-                "labelling / naming scheme (underscores, backslashes, leaf names with an empty index) / orientation / top-down or bottom-up mapping dicts rotating: scanner for balanced braces, single picture, terminated "
+                "labelling / naming scheme (underscores, backslashes, leaf names with an empty index) / orientation / top-down or bottom-up mapping dicts / wrap width (18, 7, 30) rotating: scanner for balanced braces, single picture, terminated "
                 "\\path/\\node statements, colours defined before use; colour of every event node and loss marker (layout and text) = nearest coloured "
-                "ancestor-or-self; escaped names; the reconciliation handed to the renderer must come back unchanged; synteny labels list the node's families (also multi-character families whose lists concatenate to the same text), omitted iff equal to the parent's. Wrapper: all word lists "
+                "ancestor-or-self; escaped names; the reconciliation handed to the renderer must come back unchanged; synteny labels list the node's families (also multi-character families whose lists concatenate to the same text), omitted iff equal to the parent's, wrapped at the width of that drawing (no line longer, no more lines than greedy). Wrapper: all word lists "
                 "of <=5 (6) words over 4 (5) lengths x widths 1..30 and syntenies of <=12 families against greedy wrapping.",
         "design_ref": "6 (C15)",
         "note": "Family names contain no backslash (a doubled backslash in a label is a TeX line break and would be ambiguous to un-wrap).",
@@ -242,7 +242,7 @@ CLAIMED = {
                 "fixpoint thorough), real (parent, rank, groups) paired with the naive partition, find/len/to_list/unite result/binary() checked in "
                 "every state, each transition replayed on a fresh object. Triples/supertrees: exhaustive over all labelled binary trees on <= 5 (6) "
                 "leaves, all 4096 subsets of the triples on 4 leaves (and <= 3 triples on 5 leaves), all pairs of binary trees on overlapping leaf "
-                "sets within 5 labels (also passed as a generator / map object, and with the second tree's children written in the opposite order); ancestors unnamed, freshly named, same-labelled or named like a leaf; leaf labels with Newick-special characters (tree built through the API); every returned ete3 tree is checked for consistent parent / child links and for sharing no node object with another result.",
+                "sets within 5 labels (also passed as a generator / map object, and with the second tree's children written in the opposite order); ancestors unnamed, freshly named, same-labelled or named like a leaf; leaf labels with Newick-special characters (tree built through the API); decomposition repeated after an in-place exchange of two leaf labels; every returned ete3 tree is checked for consistent parent / child links and for sharing no node object with another result.",
         "design_ref": "6 (C20), 3 (E1 explorer)",
         "note": "Trusted: refmodel/graphs.py (clade-based display test, two-block coarsenings), ete3.",
         "technique": TECH_E1 + "; bounded-exhaustive enumeration of trees and triple sets for the triple routines",
